@@ -8,6 +8,7 @@ that block (on the gate of their Finish operation) overlap with later calls.  Pu
 read-only peeks at the cache sizes (closure cell of the pure-Python wrapper /
 __acached_per_instance_cache__, the attribute asynq's own tests use)."""
 import gc
+import weakref
 
 import _common
 import asynq.tools as T
@@ -177,6 +178,7 @@ def build(case):
         i = op["inst"]
         if i not in H.instances:
             H.instances[i] = Obj(i)
+            H.wrefs[i] = weakref.ref(H.instances[i])
         return H.instances[i].m.asynq(*op["args"], **{pname(n): v for n, v in op["kw"]})
     if kind == "alru":
         cache = find_lru(getattr(deco_obj, "fn", None))
@@ -196,6 +198,7 @@ def run_case(case):
     H.log = []
     H.current = None
     H.instances = {}
+    H.wrefs = {}
     H.inflight = set()
     H.now = case.get("now0", 0)
     old_utime = T.utime
@@ -214,7 +217,7 @@ def run_case(case):
                 f = BIG + k
                 for k2 in range(k + 1, len(ops)):
                     o2 = ops[k2]
-                    if o2["op"] == "finish" and o2["id"] == op["id"] and o2.get("inst") == op.get("inst"):
+                    if o2["op"] == "finish" and o2["id"] == op["id"] and (case["kind"] != "inst" or o2.get("inst") == op.get("inst")):
                         f = k2
                         break
                 fin[k] = f
@@ -252,7 +255,9 @@ def run_case(case):
                     H.log.append(["sync", "RBusy"])
                 else:
                     H.instances.pop(i, None)
-                    gc.collect()
+                    wr = H.wrefs.pop(i, None)
+                    if wr is not None and wr() is not None:
+                        gc.collect()          # the instance is only kept by garbage cycles
                     H.log.append(["sync", "RUnit"])
             elif kind == "dirty":
                 w.dirty()
@@ -346,4 +351,6 @@ def digest(case, log):
 
 
 if __name__ == "__main__":
+    gc.collect()
+    gc.freeze()
     _common.main(run_case)
